@@ -409,6 +409,9 @@ def run(ctx):
     cover(ctx, exe, pf, env, "ModuleLife_duo_quick.cfg" if q else "ModuleLife_duo_thorough.cfg", "duo", 1 if q else 2,
           (ALL_OPS | {"dup", "comp"}) - {"null_sym", "null_fname"}, walks=(150, 40) if q else (1500, 60), pairs=(3000 if q else 100000),
           levels=(1, 5) if q else (1, 3, 5), lvl_walks=(40, 40) if q else (400, 60))
+    if not q:      # the vetoing library beside another object (kept out of the first two-object scope to bound it)
+        cover(ctx, exe, pf, env, "ModuleLife_duo_veto.cfg", "duo-veto", 1, (ALL_OPS | {"dup", "comp"}) - {"null_sym", "null_fname"},
+              walks=(500, 60), pairs=50000, levels=(1, 5), lvl_walks=(200, 60))
     t0 = phase(ctx, "duo", t0)
     # the handle on the program itself (dlopen(NULL)) through new / init / done / dup / del
     cover(ctx, exe, pf, env, "ModuleLife_main.cfg", "main", 1, {"new", "done", "del", "init", "dup", "load", "unload"}, flags="main",
